@@ -714,7 +714,7 @@ class GeoBox(PolygonBase):
     def centroid(self) -> Coordinate:
         _nw = self.nw_bound.to_float()
         _se = self.se_bound.to_float()
-        z = self.nw_bound.z or self.se_bound.z or None
+        z = self.nw_bound.z if self.nw_bound.z is not None else self.se_bound.z
         return Coordinate(
             round_half_up(statistics.mean([_nw[0], _se[0]]), 7),
             round_half_up(statistics.mean([_nw[1], _se[1]]), 7),
@@ -724,7 +724,7 @@ class GeoBox(PolygonBase):
     def bounding_coords(self, **kwargs) -> List[Coordinate]:
         _nw = self.nw_bound.to_float()
         _se = self.se_bound.to_float()
-        z = self.nw_bound.z or self.se_bound.z or None
+        z = self.nw_bound.z if self.nw_bound.z is not None else self.se_bound.z
 
         # Is self-closing
         return [
